@@ -63,6 +63,7 @@ impl<M: Matcher> Replacer<M> {
         // (it need not be the searcher's: with a CRLF terminator a line may
         // end in a bare `\n`).
         let mut line_term: &[u8] = &[];
+        let mut full = haystack;
         if is_multi_line {
             if haystack[range.end..].len() >= MAX_LOOK_AHEAD {
                 haystack = &haystack[..range.end + MAX_LOOK_AHEAD];
@@ -76,6 +77,7 @@ impl<M: Matcher> Replacer<M> {
             trim_line_terminator(searcher, haystack, &mut m);
             line_term = &haystack[m.end()..range.end];
             haystack = &haystack[..m.end()];
+            full = haystack;
         }
         {
             let &mut Space { ref mut dst, ref mut caps, ref mut matches } =
@@ -86,6 +88,7 @@ impl<M: Matcher> Replacer<M> {
             replace_with_captures_in_context(
                 matcher,
                 haystack,
+                full,
                 range.clone(),
                 caps,
                 dst,
@@ -93,7 +96,7 @@ impl<M: Matcher> Replacer<M> {
                     let start = dst.len();
                     caps.interpolate(
                         |name| matcher.capture_index(name),
-                        haystack,
+                        full,
                         replacement,
                         dst,
                     );
@@ -505,6 +508,7 @@ where
     // shouldn't be involved in this business in the first place. Sigh. Live
     // and learn. Abstraction boundaries are hard.
     let is_multi_line = searcher.multi_line_with_matcher(&matcher);
+    let mut full = bytes;
     if is_multi_line {
         if bytes[range.end..].len() >= MAX_LOOK_AHEAD {
             bytes = &bytes[..range.end + MAX_LOOK_AHEAD];
@@ -516,15 +520,36 @@ where
         let mut m = Match::new(0, range.end);
         trim_line_terminator(searcher, bytes, &mut m);
         bytes = &bytes[..m.end()];
+        full = bytes;
     }
+    // A match that starts inside the given lines but runs past them cannot
+    // be one of the searcher's matches. It can only come from the cap above
+    // (e.g., `$` matches where the buffer was cut). When that happens, we
+    // continue from the start of that match on the buffer as given.
+    let mut redo_at = None;
     matcher
         .find_iter_at(bytes, range.start, |m| {
             if m.start() >= range.end {
                 return false;
             }
+            if m.end() > range.end && bytes.len() < full.len() {
+                redo_at = Some(m.start());
+                return false;
+            }
             matched(m)
         })
-        .map_err(io::Error::error_message)
+        .map_err(io::Error::error_message)?;
+    if let Some(at) = redo_at {
+        matcher
+            .find_iter_at(full, at, |m| {
+                if m.start() >= range.end {
+                    return false;
+                }
+                matched(m.with_end(std::cmp::min(m.end(), range.end)))
+            })
+            .map_err(io::Error::error_message)?;
+    }
+    Ok(())
 }
 
 /// Given a buf and some bounds, if there is a line terminator at the end of
@@ -548,9 +573,13 @@ pub(crate) fn trim_line_terminator(
 /// Like `Matcher::replace_with_captures_at`, but accepts an end bound.
 ///
 /// See also: `find_iter_at_in_context` for why we need this.
+///
+/// `bytes` is the (possibly capped) haystack and `full` the haystack as given
+/// by the searcher, of which `bytes` is a prefix.
 fn replace_with_captures_in_context<M, F>(
     matcher: M,
     bytes: &[u8],
+    full: &[u8],
     range: std::ops::Range<usize>,
     caps: &mut M::Captures,
     dst: &mut Vec<u8>,
@@ -561,17 +590,37 @@ where
     F: FnMut(&M::Captures, &mut Vec<u8>) -> bool,
 {
     let mut last_match = range.start;
+    // See 'find_iter_at_in_context' for why a match running past the given
+    // lines makes us continue on the uncapped haystack.
+    let mut redo_at = None;
     matcher.captures_iter_at(bytes, range.start, caps, |caps| {
         let m = caps.get(0).unwrap();
         if m.start() >= range.end {
+            return false;
+        }
+        if m.end() > range.end && bytes.len() < full.len() {
+            redo_at = Some(m.start());
             return false;
         }
         dst.extend(&bytes[last_match..m.start()]);
         last_match = m.end();
         append(caps, dst)
     })?;
-    let end = std::cmp::min(bytes.len(), range.end);
-    dst.extend(&bytes[last_match..end]);
+    if let Some(at) = redo_at {
+        matcher.captures_iter_at(full, at, caps, |caps| {
+            let m = caps.get(0).unwrap();
+            if m.start() >= range.end {
+                return false;
+            }
+            dst.extend(&full[last_match..m.start()]);
+            last_match = m.end();
+            append(caps, dst)
+        })?;
+    }
+    let end = std::cmp::min(full.len(), range.end);
+    if last_match < end {
+        dst.extend(&full[last_match..end]);
+    }
     Ok(())
 }
 
